@@ -338,10 +338,38 @@ class Doc:
         self.mods = list(r.find("unitModifierDefinitions").findall("unitModifierDefinition"))
         self.vclasses = list(r.find("valueClassDefinitions").findall("valueClassDefinition"))
         self.attr_defs = list(r.find("schemaAttributeDefinitions").findall("schemaAttributeDefinition"))
+        self.prop_defs = list(r.find("propertyDefinitions").findall("propertyDefinition"))
 
     def elems(self, sec):
         return {"tags": [n[0] for n in self.nodes], "unitClasses": self.uclasses, "units": [u[0] for u in self.units],
-                "unitModifiers": self.mods, "valueClasses": self.vclasses}[sec]
+                "unitModifiers": self.mods, "valueClasses": self.vclasses, "attributes": self.attr_defs,
+                "properties": self.prop_defs}[sec]
+
+    @staticmethod
+    def attr_tag(sec):
+        """the child element that carries an entry's attributes: <property> in the two definition sections"""
+        return "property" if sec in ("attributes", "properties") else "attribute"
+
+    def own_attrs(self, sec, el):
+        return {a.find("name").text for a in el.findall(self.attr_tag(sec))}
+
+    def stratum(self, sec, idx):
+        """Entry kind by the attributes it already carries: seed positions are stratified by it."""
+        el = self.elems(sec)[idx]
+        have = self.own_attrs(sec, el)
+        if "deprecatedFrom" in have:
+            return "deprecated"
+        if sec == "tags":
+            if "rooted" in have:
+                return "rooted"
+            if self.nodes[idx][1].endswith("/#"):
+                return "placeholder"
+            if "inLibrary" in have:
+                return "library"
+            if any(k.find("name").text == "#" for k in el.findall("node")):
+                return "takes-value-parent"
+            return "plain"
+        return "library" if "inLibrary" in have else "plain"
 
     def entry_name(self, sec, idx):
         if sec == "tags":
@@ -366,6 +394,15 @@ class Doc:
         notion, computed from the XML alone."""
         out = set()
         new = self.style83()
+        elem = "elementDomain" if new else "elementProperty"
+        if sec in ("attributes", "properties"):
+            # definitions: an attribute definition may carry every declared property, and (like a property
+            # definition) the attributes declared for all elements
+            out = {d.find("name").text for d in self.attr_defs
+                   if elem in {p.find("name").text for p in d.findall("property")}}
+            if sec == "attributes":
+                out |= {d.find("name").text for d in self.prop_defs}
+            return out
         dom = {"tags": "tagDomain", "unitClasses": "unitClassDomain", "units": "unitDomain",
                "unitModifiers": "unitModifierDomain", "valueClasses": "valueClassDomain"}[sec] if new else \
               {"tags": None, "unitClasses": "unitClassProperty", "units": "unitProperty",
@@ -384,8 +421,8 @@ class Doc:
         return out
 
 
-def add_attr(el, name, value=None):
-    a = ET.SubElement(el, "attribute")
+def add_attr(el, name, value=None, tag="attribute"):
+    a = ET.SubElement(el, tag)
     n = ET.SubElement(a, "name")
     n.text = name
     if value is not None:
@@ -421,16 +458,22 @@ def positions(doc, kind):
             out.append({"kind": kind, "sec": "tags", "idx": i, "target": "sibling"})
             out.append({"kind": kind, "sec": "tags", "idx": i, "target": "other"})
     elif kind == "undeclared_attr":
-        for sec in SECS:
+        # every entry of EVERY section (the two definition sections included), with a name the schema declares
+        # for another section ("elsewhere") and with a name it declares nowhere
+        for sec in SECS + ["attributes", "properties"]:
             for i in range(len(doc.elems(sec))):
-                out.append({"kind": kind, "sec": sec, "idx": i, "attr": "*"})
+                for where in ("elsewhere", "nowhere"):
+                    out.append({"kind": kind, "sec": sec, "idx": i, "attr": "*", "where": where})
     elif kind in ("unknown_unit_class", "unknown_value_class", "unknown_tag"):
+        # every node: the value is added to the attribute when the node has it, else the attribute is added
+        # (unit / value classes on '#' placeholders only: elsewhere that is the class-on-non-placeholder fault)
         names = {"unknown_unit_class": ["unitClass"], "unknown_value_class": ["valueClass"],
                  "unknown_tag": ["suggestedTag", "relatedTag"]}[kind]
         for i, (el, long, par) in enumerate(doc.nodes):
+            if kind != "unknown_tag" and not long.endswith("/#"):
+                continue
             for nm in names:
-                if has_own(doc, el, nm):
-                    out.append({"kind": kind, "sec": "tags", "idx": i, "attr": nm})
+                out.append({"kind": kind, "sec": "tags", "idx": i, "attr": nm})
     elif kind == "class_on_non_placeholder":
         for i, (el, long, par) in enumerate(doc.nodes):
             if not long.endswith("/#"):
@@ -520,21 +563,29 @@ def apply_seed(doc, spec, rng):
         return ("-", "-", code)
     if kind == "undeclared_attr":
         declared = doc.declared_attributes()
-        have = {a.find("name").text for a in el.findall("attribute")}
+        have = doc.own_attrs(sec, el)
         okset = doc.declared_for(sec)
-        cands = [a for a in declared if a not in have and a not in okset] + ["notAnAttribute", "myAttribute"]
+        elsewhere = [a for a in declared if a not in have and a not in okset]
+        nowhere = ["notAnAttribute", "myAttribute"]
+        where = spec.get("where")
+        cands = elsewhere if where == "elsewhere" else nowhere if where == "nowhere" else elsewhere + nowhere
         if spec.get("attr") in (None, "*"):
+            if not cands:
+                return None
             spec["attr"] = cands[rng.randrange(len(cands))]
             spec["flag"] = rng.random() < 0.5
-        elif spec["attr"] not in cands:
+        elif spec["attr"] not in elsewhere + nowhere:
             return None
-        add_attr(el, spec["attr"], None if spec.get("flag") else "x1")
+        add_attr(el, spec["attr"], None if spec.get("flag") else "x1", tag=doc.attr_tag(sec))
         return (sec, name, code)
     if kind in ("unknown_unit_class", "unknown_value_class", "unknown_tag"):
         a = doc.attr_el(el, spec["attr"])
-        vals = a.findall("value")
         bogus = {"unknown_unit_class": "nosuchUnitClass", "unknown_value_class": "nosuchValueClass",
                  "unknown_tag": "No-such-tag"}[kind]
+        if a is None:
+            add_attr(el, spec["attr"], bogus)
+            return (sec, name, code)
+        vals = a.findall("value")
         if vals and rng.random() < 0.5:
             vals[rng.randrange(len(vals))].text = bogus
         else:
@@ -963,7 +1014,7 @@ def plan(tier, seed, proof_ok):
                     counts[kind] += 1
                 continue
             n = min(len(pos), per_kind * (3 if kind in ("undeclared_attr", "deprecated_from", "dup_node") else 1))
-            for p in (pos if n == len(pos) else rng.sample(pos, n)):
+            for p in stratified(doc, pos, n, rng, every_stratum=per_kind >= 5):
                 jobs.append((f, p, rng.randrange(1 << 30)))
                 counts[kind] += 1
         seedable[(f, "hed_id_changed")] = 0      # no previous bundled version records ids
@@ -975,6 +1026,28 @@ def plan(tier, seed, proof_ok):
         jobs.append((bump, p, rng.randrange(1 << 30)))
         counts["hed_id_changed(bumped copy)"] += 1
     return files, elig, jobs, counts, seedable
+
+
+def stratified(doc, pos, n, rng, every_stratum=True):
+    """n positions, at least one from every stratum = (section, entry kind by the attributes the entry already has
+    [deprecated / rooted / placeholder / library / takes-value-parent / plain], variant of the seed)."""
+    if n >= len(pos):
+        return list(pos)
+    groups = collections.defaultdict(list)
+    for p in pos:
+        variant = p.get("where") or p.get("how") or p.get("target") or ""
+        groups[(p["sec"], doc.stratum(p["sec"], p["idx"]), variant)].append(p)
+    if not every_stratum:
+        # small budget: a random sample plus one position of each rare entry kind
+        rare = [g[rng.randrange(len(g))] for k, g in sorted(groups.items()) if k[1] in ("deprecated", "rooted")]
+        return rng.sample(pos, n) + rare
+    chosen = [g[rng.randrange(len(g))] for _, g in sorted(groups.items())]
+    ids = {id(p) for p in chosen}
+    rest = [p for p in pos if id(p) not in ids]
+    extra = n - len(chosen)
+    if extra > 0:
+        chosen += rng.sample(rest, min(extra, len(rest)))
+    return chosen
 
 
 def G_key(fname):
@@ -991,6 +1064,10 @@ CORPUS = [
     ("HED8.3.0.xml", {"kind": "undeclared_attr", "sec": "tags", "idx": 7, "attr": "suggestedTag", "flag": True}, 1),
     ("HED8.3.0.xml", {"kind": "hed_id_range", "sec": "tags", "idx": 0, "bound": "zero"}, 1),
     ("HED_score_2.0.0.xml", {"kind": "hed_id_range", "sec": "unitModifiers", "idx": 2, "bound": "zero"}, 1),
+    ("HED8.3.0.xml", {"kind": "undeclared_attr", "sec": "unitModifiers", "idx": 0, "attr": "SIUnit", "flag": True,
+                      "where": "elsewhere"}, 1),
+    ("HED8.3.0.xml", {"kind": "undeclared_attr", "sec": "valueClasses", "idx": 0, "attr": "takesValue", "flag": True,
+                      "where": "elsewhere"}, 1),
     ("HED8.3.0.xml", {"kind": "in_library", "sec": "tags", "idx": 0}, 1),
     ("HED8.3.0.xml", {"kind": "dup_node", "sec": "tags", "idx": 1, "target": "sibling"}, 1),
     ("HED8.1.0.xml", {"kind": "deprecated_from", "sec": "units", "idx": 2, "how": "not_older"}, 1),
@@ -1058,6 +1135,16 @@ def run(tier, seed, res, model_ok=True, proof_ok=True):
         nnum, _ = check_numbers(exe, res)
 
     kinds_hist = dict(counts)
+    strata_hist = collections.Counter()
+    _docs = {}
+    for r in seeded:
+        if "impl" in r and r["spec"]["kind"] != "dup_node" or "impl" in r:
+            k = r["key"]
+            if k not in _docs:
+                _docs[k] = Doc(base_text(k))
+            sp = r["spec"]
+            strata_hist[f"{sp['kind']}|{sp['sec']}|{_docs[k].stratum(sp['sec'], sp['idx'])}"
+                        + (f"|{sp['where']}" if sp.get("where") else "")] += 1
     n_seeded = sum(1 for r in seeded if "impl" in r)
     distinct = len({(r["key"], json.dumps(r["spec"], sort_keys=True)) for r in seeded if "impl" in r})
     return {
@@ -1071,6 +1158,7 @@ def run(tier, seed, res, model_ok=True, proof_ok=True):
         "histogram": {"seeds_per_kind": kinds_hist,
                       "reported_with_spec_code": dict(stats["reported"]),
                       "not_seedable_at_position": dict(not_seedable),
+                      "seeds_per_stratum(kind|section|entry kind|variant)": dict(sorted(strata_hist.items())),
                       "positions_available": {f"{f}:{k}": n for (f, k), n in sorted(seedable.items())},
                       "outside_model_domain": stats["outside_domain"]},
         "bundled_checked": [r["key"] for r in bundled],
